@@ -534,7 +534,12 @@ func (x *c02Run) genReq(tok *c02Tok, directed bool, from *c02Policy) *c02Req {
 	switch n := rng.Intn(100); {
 	case (directed || n < 45) && len(rules) > 0:
 		ru := strings.SplitN(kit.Pick(rng, rules), "\x00", 2)
-		abs = c02Instantiate(rng, ru[0])
+		for try := 0; try < 4; try++ { // prefer an instance that a backend path pattern accepts
+			abs = c02Instantiate(rng, ru[0])
+			if _, _, pi := w.locate(abs); pi >= 0 {
+				break
+			}
+		}
 		caps := strings.Split(ru[1], ",")
 		if rng.Chance(3, 4) {
 			c := kit.Pick(rng, caps)
